@@ -137,6 +137,19 @@ def clause_a(rep, F, caps):
             nimpl += 1
             e = cfg.expr_local(f, 0)
             cap = e[1] if e[0] == "const" and isinstance(e[1], int) else None
+            generic = None
+            for d_ in cfg.defs_of_local(f, 0):
+                if d_[0] == "stmt" and d_[3]["rv"]["k"] == "use":
+                    c_ = op_const(d_[3]["rv"]["a"]) or {}
+                    if isinstance(c_.get("opaque"), str) and c_["opaque"].isidentifier() and c_.get("ty") == "usize":
+                        generic = c_["opaque"]
+            if cap is None and generic is not None:
+                # the capacity is a const parameter of the implementation: every instantiation is a back-end of its own; the look-ahead
+                # analysis below is run for the capacities of the quantifier, and the bound is an obligation of whoever instantiates it
+                rep.ok("capacity", short(k), {"capacity_is_const_parameter": generic})
+                rep.extra.setdefault("impl_capacities", {})[short(k)] = "const " + generic
+                rep.notes.append("the capacity of %s is the const parameter %s: analysed for the capacities %s" % (short(k), generic, list(caps)))
+                continue
             rep.check(cap is not None and cap >= maxreq and cap >= 8, "capacity", short(k),
                       "an Input implementation advertises a buffer capacity below the scanner's largest look-ahead request (%d)" % maxreq,
                       site=f.span, detail={"bufmaxlen": cap})
@@ -154,7 +167,8 @@ def clause_a(rep, F, caps):
             item = op_const(d[3]["rv"]["a"]).get("item")
     cap = (rep.extra.get("impl_capacities") or {}).get(short(bm.key))
     tys = bt[0].replace(" ", "") if bt else ""
-    same = bool(tys) and ((item is not None and tys.endswith("," + item.split("::")[-1] + ">")) or (cap is not None and tys.endswith(",%d>" % cap)))
+    same = bool(tys) and ((item is not None and tys.endswith("," + item.split("::")[-1] + ">")) or (isinstance(cap, int) and tys.endswith(",%d>" % cap))
+                          or (isinstance(cap, str) and cap.startswith("const ") and tys.endswith("," + cap[6:] + ">")))
     rep.check(same, "capacity", "BufferedInput.buffer", "the ring buffer's capacity is not the constant advertised by bufmaxlen()",
               detail={"type": bt, "bufmaxlen": cap, "constant": item})
 
